@@ -198,7 +198,9 @@ def write_loop(ctx, prog, viol):
                     conds += [accepted == L, ob.len == 0, ob.abs == a0 + L, z3.BoolVal(last in ('ok', None))]
                     label = 'flushed'
                 elif out == 'IoErrorWritingSocket':
-                    conds += [z3.BoolVal(last in ('err', 'interrupted')), ob.abs == a0, ob.len == L]
+                    # a transport that accepts nothing (Ok(0)) may be given up on as well (std's write_all does): an error, nothing dropped
+                    zero_write = z3.And(z3.BoolVal(last == 'ok'), tr[-1][1] == 0) if last == 'ok' else z3.BoolVal(False)
+                    conds += [z3.Or(z3.BoolVal(last in ('err', 'interrupted')), zero_write), ob.abs == a0, ob.len == L]
                     label = out
                 else:
                     conds = [z3.BoolVal(False)]
@@ -542,7 +544,7 @@ fn verif_replay_c01() {
             if i.outbuf.is_empty() { break; }
         }
         let want_errors = if steps.iter().take(s.i).any(|x| *x == -1) { 1 } else { 0 };
-        let eintr = steps.iter().take(s.i).any(|x| *x == -2);    // EINTR may be fatal or retried
+        let eintr = steps.iter().take(s.i).any(|x| *x == -2 || *x == -3);    // EINTR and Ok(0) may be fatal or retried
         // what reached the transport is a prefix of what was queued; unless an error ended the connection, accepted + still queued = queued
         let mut total: Vec<u8> = s.accepted.clone();
         if errors == 0 { total.extend_from_slice(&i.outbuf[0..]); }
